@@ -390,8 +390,12 @@ def run(ctx: Ctx, rep: Report) -> None:
     from . import c06
 
     sub = ctx.sub_run("c06", rep)
-    rep.adopt_rules(sub, "C10-R8", ["C06-R3"])
+    rep.adopt_rules(sub, "C10-R8", ["C06-R3", "C06-R8"])
     rep.adopt_rules(ctx.sub_run("c11", rep), "C10-R9", ["C11-R1", "C11-R2", "C11-R3"])
+    # the msgAuthoritativeEngineTime of a request is the discovered time plus the seconds elapsed since (RFC 3414 2.3)
+    rep.adopt_rules(ctx.sub_run("c12", rep), "C10-R2", ["C12-R3", "C12-R7"])
+    # the digest of a request is the HMAC keyed with the key localised for *this* engine, truncated to 12 octets
+    rep.adopt_rules(ctx.sub_run("c09", rep), "C10-R4", ["C09-R3"], containing="HMAC")
 
 
 def check_derivation(ctx: Ctx, rep: Report, outer: FuncInfo, fn: FuncInfo) -> None:
